@@ -4,7 +4,7 @@
    function alone (every intermediate real value inside the domain of the operation applied to it).
    fused multiply-add and iterator sums / products are, by the theorems of C08, equal to the operator compositions they abbreviate, so a program
    using them is a program of this syntax.  Only `exact` proofs here. *)
-From ND Require Import Tactics C02_proofs C01_towers C01_faa C07_proofs C09_proofs Prog Agree C04_inst C04_nested C03_proofs C03_second C03_third.
+From ND Require Import Tactics C02_proofs C01_towers C01_faa C07_proofs C09_proofs Prog Agree C04_inst C04_nested C03_proofs C03_second C03_third C03_mixed.
 Local Open Scope R_scope.
 
 (* the first-order type: the eps part is the derivative (Coquelicot is_derive) of the real function the program computes, along the input curves *)
@@ -42,6 +42,21 @@ Theorem C03_third_derivative_program : forall p x, okR (x :: nil) p ->
   exists f' f'' : R -> R, locally x (fun t => is_derive (fun s => eval (T:=R) (s :: nil) p) t (f' t)) /\ locally x (fun t => is_derive f' t (f'' t)) /\
     Dual3_f_v1 d = f' x /\ Dual3_f_v2 d = f'' x /\ is_derive f'' x (Dual3_f_v3 d).
 Proof. exact third_derivative_program. Qed.
+
+(* mixed second order: RepH s0 t0 v h  :=  re h = v s0 t0 /\ exists vt, (vt s = t-derivative of v(s,.) at t0, for s near s0) /\ eps1 h = s-derivative of v(.,t0) at s0 /\
+   eps2 h = vt s0 /\ is_derive vt s0 (eps1eps2 h): the eps1eps2 part of the evaluation over HyperDual is the MIXED second derivative d/ds d/dt of the
+   composed real function along any two-parameter family of inputs *)
+Theorem C03_mixed_second_order : forall (s0 t0 : R) (p : prog) (envV : list (R -> R -> R)) (envD : list (HyperDual R)),
+  Forall2 (RepH s0 t0) envV envD -> okR (at_st envV s0 t0) p ->
+  RepH s0 t0 (fun s t => eval (T:=R) (at_st envV s t) p) (eval envD p).
+Proof. exact mixed_second_order. Qed.
+Theorem C03_second_partial_program : forall p x y, okR (x :: y :: nil) p ->
+  let h := eval (mkHyperDual x 1 0 0 :: mkHyperDual y 0 1 0 :: nil) p in
+  let f := fun s t => eval (T:=R) (s :: t :: nil) p in
+  HyperDual_f_re h = f x y /\
+  exists ft : R -> R, locally x (fun s => is_derive (f s) y (ft s)) /\ is_derive (fun s => f s y) x (HyperDual_f_eps1 h) /\
+    HyperDual_f_eps2 h = ft x /\ is_derive ft x (HyperDual_f_eps1eps2 h).
+Proof. exact second_partial_program. Qed.
 
 (* every type, every first-order direction l of it: RepX says x carries value and derivative in direction l of the curve v at t0
      RepX l t0 v x  :=  wf x /\ part x [] = v t0 /\ is_derive v t0 (part x [l])
@@ -95,7 +110,7 @@ Example C03_example :
   okR (at_t ((fun t => t) :: (fun _ => 2) :: nil) 1) p /\ Forall2 (Rep1 1) ((fun t => t) :: (fun _ => 2) :: nil) (mkDual 1 1 :: mkDual 2 0 :: nil).
 Proof. exact example_ok. Qed.
 
-Definition C03_bundle := (C03_first_order, C03_first_derivative_program, C03_second_order, C03_second_derivative_program, C03_third_order, C03_third_derivative_program, C03_directional_Dual, C03_directional_Dual2, C03_directional_Dual3,
+Definition C03_bundle := (C03_first_order, C03_first_derivative_program, C03_second_order, C03_second_derivative_program, C03_third_order, C03_third_derivative_program, C03_mixed_second_order, C03_second_partial_program, C03_directional_Dual, C03_directional_Dual2, C03_directional_Dual3,
   C03_directional_HyperDual, C03_directional_HyperHyperDual, C03_directional_DualVec, C03_directional_Dual2Vec, C03_directional_HyperDualVec,
   C03_directional_DD, C03_directional_DDD).
 Print Assumptions C03_bundle.
